@@ -326,7 +326,7 @@ func TestVerifC16Conn(t *testing.T) {
 	}
 	gen(nil)
 	rng := verifkit.Rand("c16-conn")
-	nseq := verifkit.Pick(24, len(seqs))
+	nseq := verifkit.Pick(24, 90) // of the 258 sequences; all of them would not fit the thorough budget
 	// sequences that associate at least one peer are the informative ones; keep the sample deterministic
 	var chosen [][]c16Op
 	perm := rng.Perm(len(seqs))
@@ -349,7 +349,7 @@ func TestVerifC16Conn(t *testing.T) {
 		withCancel := si%5 == 4
 		ops := ops
 		st := verifsched.Explore(func(plan string) *verifsched.Scenario { return c16ConnScenario(rep, ops, nw, withCancel, plan) },
-			6, verifkit.Pick(6, 40), uint64(verifkit.Seed())+uint64(si), 25*time.Millisecond, verifkit.Pick(60, 600),
+			6, verifkit.Pick(6, 20), uint64(verifkit.Seed())+uint64(si), 25*time.Millisecond, verifkit.Pick(60, 300),
 			func(plan string, realised bool, r verifsched.RunResult) {
 				rep.Eval(1)
 				if realised || plan == "off" {
